@@ -805,22 +805,24 @@ type Finding struct {
 
 // Result is what an exploration covered.
 type Result struct {
-	Scenario        string
-	BoundCompleted  int
-	Unbounded       bool
-	Schedules       int
-	SchedulesByBnd  []int
-	MaxPoints       int
-	Transitions     int
-	Outcomes        map[string]int
-	Findings        map[string]*Finding
-	SampleTrace     []string
-	InterleavedRuns int // executions with at least one context switch between threads before either finished
-	BudgetExhausted bool
-	States          int      // distinct global states (state-key pruning)
-	WrittenNames    []string // probe names some execution wrote (reads of all others were not scheduling points)
-	Rounds          int
-	SkippedReads    int
+	Scenario            string
+	BoundCompleted      int
+	Unbounded           bool
+	Schedules           int
+	SchedulesByBnd      []int
+	MaxPoints           int
+	Transitions         int
+	Outcomes            map[string]int
+	Findings            map[string]*Finding
+	SampleTrace         []string
+	InterleavedRuns     int // executions with at least one context switch between threads before either finished
+	BudgetExhausted     bool
+	States              int // distinct global states (state-key pruning)
+	StoppedAfterFinding bool
+	firstFindingAt      int
+	WrittenNames        []string // probe names some execution wrote (reads of all others were not scheduling points)
+	Rounds              int
+	SkippedReads        int
 }
 
 func preemptions(x *Execution, upto int) int {
@@ -838,6 +840,25 @@ func preemptions(x *Execution, upto int) int {
 // executions is exhausted (then BoundCompleted tells what was fully covered).
 func Explore(sc Scenario, maxBound int, budget int) Result {
 	return fixpoint(func() (Result, []string) { return explore1(sc, maxBound, budget) })
+}
+
+// stopAfterFinding: once a scenario has produced a finding, 2000 further
+// executions are explored (to collect the other finding classes of the same
+// change) and the search of that scenario stops; the result is then reported as
+// incomplete, which is immaterial because the property is already violated.
+func stopAfterFinding(res *Result, pending int) bool {
+	if len(res.Findings) == 0 {
+		res.firstFindingAt = -1
+		return false
+	}
+	if res.firstFindingAt < 0 {
+		res.firstFindingAt = res.Schedules + pending
+	}
+	if res.Schedules+pending > res.firstFindingAt+2000 {
+		res.StoppedAfterFinding = true
+		return true
+	}
+	return false
 }
 
 // fixpoint restarts an exploration until no execution writes a name assumed never written.
@@ -879,7 +900,8 @@ func explore1(sc Scenario, maxBound int, budget int) (Result, []string) {
 				complete = false
 				return
 			}
-			if len(newly) > 0 {
+			if len(newly) > 0 || stopAfterFinding(&res, count) {
+				complete = false
 				return
 			}
 			sc.Setup()
@@ -946,7 +968,8 @@ func exploreAll1(sc Scenario, budget int) (Result, []string) {
 			complete = false
 			return
 		}
-		if len(newly) > 0 {
+		if len(newly) > 0 || stopAfterFinding(&res, 0) {
+			complete = false
 			return
 		}
 		sc.Setup()
